@@ -374,7 +374,14 @@ func (tr *Tr) builtin(fr *Frame, site ssa.Instruction, c *ssa.CallCommon, b *ssa
 			sl, sreg, soff = s[2], s[0], s[1]
 			srcInner = tr.snapshot(fr.st, keys, sreg)
 		}
-		n := f.Ite(f.SLt(d[2], sl), d[2], sl)
+		dl := d[2]
+		if c := tr.constOf(dl); c != nil {
+			dl = c
+		}
+		if c := tr.constOf(sl); c != nil {
+			sl = c
+		}
+		n := f.Ite(f.SLt(dl, sl), dl, sl)
 		tr.copyRange(fr.st, keys, d[0], d[1], srcInner, soff, f.Mul(n, f.BVi(64, m)))
 		return Val{n}
 	case "min", "max":
@@ -445,7 +452,7 @@ func (tr *Tr) appendOp(fr *Frame, site ssa.Instruction, c *ssa.CallCommon) Val {
 		n = c
 	}
 	newLen := f.Add(s[2], n)
-	tr.oblige("alloc", site.Pos(), f.SLe(newLen, tr.maxLen), "append: length out of range")
+	tr.assumeHere(f.SLe(newLen, tr.maxLen), "append does not exhaust memory (result length below 2^48)")
 	inplace := f.SLe(newLen, s[3])
 	if !inplace.IsTrue() && !inplace.IsFalse() {
 		// decide the capacity question now when the path condition settles it (keeps the heap a single store chain)
